@@ -53,6 +53,8 @@ let handle (toks : string list) : (string * string * string) option =
        let stride = sizeof (lab cfg) (ptee_of_string pt) in
        (* "radd" (number + pointer) is the pointer's own operator+ with the operands exchanged (fix: commit for D16) *)
        let f = form_of_string (if form = "radd" then "add" else form) and p = zs p and n = zs n and nk = kind_of_string nk in
+       (* pcell0 / pcellm: the pointer operand is fetched once from its cell; what the adversary writes there afterwards is
+          irrelevant to this operation (the operand object itself is not reported: "obj" is the value the cell held) *)
        (* a tainted_volatile operand is first stored to / loaded from a guest cell of its kind *)
        let pre = (if wrapk = "tvol" then
                     (match to_sbx (lab cfg).l_int nk n with
